@@ -88,7 +88,11 @@ class Gen:
         self.ctx.count("events.profile.far")
         far = [(2147482, 999999), (2147482, 999001), (2147482, 999000), (2147483, 0), (2147483, 1),
                (2147483, 646000), (2147483, 646001), (2147483, 647000), (2147483, 647001), (2147483, 999999),
-               (2147484, 0), (2147484, 500000), (4294967, 296000), (5000000, 7), (2147481, 500000)]
+               (2147484, 0), (2147484, 500000), (4294967, 296000), (5000000, 7), (2147481, 500000),
+               # distances of 2^31 s and more, multiples of 2^32 s: a time comparison that truncates
+               # the difference of two time_t values to int gets these wrong
+               (2147483647, 0), (2147483648, 0), (2147483653, 1), (3000000000, 0), (4294967296, 0),
+               (4294967301, 999999), (8589934592, 0), (1099511627776, 5)]
         t = r.choice(far)
         prog = [[([], 0)], [([["tr", 0, 0, 500, 1, 0]], 0)]]
         xs = []
@@ -281,9 +285,9 @@ def run_all(ctx, sub):
     exe, mexe = build(ctx, sub)
     if not exe:
         return None
-    key = _sha([vlib.repo_src(s) for s in SRC + HDR] +
-               [os.path.join(vlib.VERIF, "harness", f) for f in ("drv_events.c", "wrap_events.c", "wrap_events.h", "drv_common.h")] +
-               [os.path.join(vlib.BUILD, "model", "events", "stamp"), os.path.abspath(__file__)])
+    # the cache key is the freshly built driver BINARY (so every source and header that went into it
+    # counts, whatever file it lives in), the model's stamp and this file
+    key = _sha([exe, os.path.join(vlib.BUILD, "model", "events", "stamp"), os.path.abspath(__file__)])
     cdir = vlib.ensure_dir(os.path.join(vlib.BUILD, "events"))
     cfile = os.path.join(cdir, "run-%d-%s.json" % (ctx.seed, ctx.tier))
     if os.path.exists(cfile):
